@@ -249,7 +249,7 @@ Section ZQ.
     all: destruct (bool_decide (a = 0)) eqn:Ea0; try discriminate Hk.
     all: [> apply bool_decide_eq_true in Ea0 | apply bool_decide_eq_false in Ea0 ..] || idtac.
     all: assert (Hrn := I2 a _ _ Hst ltac:(left)); cbn in Hrn; try discriminate Hrn.
-    all: eapply zq_update; [exact Hst| cbn [stacks]; rewrite ?stacks_setstack, ?stacks_settoken; reflexivity |done | cbn | cbn; intros f' Hq].
+    all: eapply zq_update; [exact Hst| solve_stacks |done | cbn | cbn; intros f' Hq].
     all: try (assert (Hrun := runner_owned s a _ HO Hst ltac:(cbn; lia))).
     all: try match goal with
       | E : t_wake_queue _ _ = (_, _) |- _ => pose proof (wq_keeps _ HW _ _ _ E Hnp Q1) as (K1 & K2 & K3)
